@@ -6,7 +6,7 @@
 (* failures as JSON.  Bulk form (DESIGN.md 2.3): all records in one        *)
 (* evaluation, no state.                                                   *)
 (***************************************************************************)
-EXTENDS Props, Scanner, Json, IOUtils, SequencesExt
+EXTENDS Props, Scanner, Tokenizer, Json, IOUtils, SequencesExt
 
 Rec == ndJsonDeserialize(IOEnv.TRACE)
 Prop == IOEnv.PROP
@@ -26,10 +26,18 @@ ModelToks(m) == [i \in 1..Len(m.toks) |-> [text |-> m.toks[i], lower |-> Lower(m
                                             nan |-> \E j \in 1..Len(m.nan) : m.nan[j] = i - 1]]
 ModelOccs(L, m, thr) == Batch(L, ModelToks(m), thr, Linking[L])
 DriftOn == "DRIFT" \in DOMAIN IOEnv /\ IOEnv.DRIFT = "1"
+\* what differs first between model and implementation for one observation ("" = nothing):
+\* S6 token boundaries, S7 annotation (nan flags), S3-S5 occurrences
+DriftKind(L, text, m, thr) ==
+  IF m.tk # "ok" THEN ""
+  ELSE IF Tokenize(text) # m.toks THEN "tokenizer"
+  ELSE IF Annotate(L, [i \in 1..Len(m.toks) |-> Lower(m.toks[i])]) # {m.nan[j] + 1 : j \in 1..Len(m.nan)} THEN "annotator"
+  ELSE IF ~ModelOccsAgree(m.occs, ModelOccs(L, m, thr)) THEN "scanner"
+  ELSE ""
 Drift == IF ~DriftOn THEN {} ELSE
-         {x \in {[l |-> l, i |-> Rec[l].i, k |-> k] : l \in {j \in 1..Len(Rec) : Rec[j].q.lang \in Modelled /\ AllKnown(Rec[j].q.texts[1])},
-                                                     k \in 1..Len(Rec[1].q.thrs)} :
-              Rec[x.l].multi[x.k].tk = "ok" /\ ~ModelOccsAgree(Rec[x.l].multi[x.k].occs, ModelOccs(Rec[x.l].q.lang, Rec[x.l].multi[x.k], Rec[x.l].q.thrs[x.k]))}
+         {x \in {[l |-> l, i |-> Rec[l].i, k |-> k, kind |-> DriftKind(Rec[l].q.lang, Rec[l].q.texts[1], Rec[l].multi[k], Rec[l].q.thrs[k])] :
+                    l \in {j \in 1..Len(Rec) : Rec[j].q.lang \in Modelled /\ AllKnown(Rec[j].q.texts[1])},
+                    k \in 1..Len(Rec[1].q.thrs)} : x.kind # ""}
 
 Bad == {x \in {[l |-> l, i |-> Rec[l].i, k |-> k, verdict |-> V(Rec[l], k)] :
                  l \in 1..Len(Rec), k \in 1..Len(Rec[1].q.thrs)} : x.verdict # ""}
